@@ -56,7 +56,19 @@ func vhBuildTree(g *vhDigits, depth, maxw int, label string) Stack {
 		var el any
 		switch g.next(kinds) {
 		case 0:
-			el = name
+			switch g.next(6) {
+			case 0: // values that look like nesting instances and hold nothing
+				el = Stack{}
+			case 1:
+				el = vhAliasStack{}
+			case 2:
+				var p *vhAliasStack
+				el = p
+			case 3:
+				el = Cond("z"+name, Eq, Stack{})
+			default:
+				el = name
+			}
 		case 1:
 			el = nil
 		case 2:
@@ -88,12 +100,15 @@ func vhRefTraverse(s Stack, path []int) (any, bool) {
 		if k == len(path)-1 {
 			return v, true
 		}
-		if st, ok := ConvertStack(v); ok {
+		// what is a Stack / a Condition is decided by the harness's own
+		// knowledge of the types it put into the tree, not by the library's
+		// converters (which Traverse uses itself)
+		if st, ok := vhStackOf(v); ok {
 			cur = st
 			continue
 		}
-		if c, ok := ConvertCondition(v); ok {
-			if st, ok := ConvertStack(c.Expression()); ok {
+		if c, ok := vhCondOf(v); ok {
+			if st, ok := vhStackOf(c.Expression()); ok {
 				cur = st
 				continue
 			}
@@ -105,6 +120,13 @@ func vhRefTraverse(s Stack, path []int) (any, bool) {
 
 // p: depth, maxw, L (path length), digits...
 func VH_C07(p []int) {
+	// whatever was converted, compared or asked before has no say in this
+	// walk: zero and nil values of the alias types first meet the library here
+	pre := List().Push(vhAliasStack{}, (*vhAliasStack)(nil), vhAliasCond{}, (*vhAliasCond)(nil), (*Stack)(nil))
+	_ = pre.IsNesting()
+	_ = pre.String()
+	ConvertStack(vhAliasStack{})
+	ConvertCondition((*vhAliasCond)(nil))
 	g := &vhDigits{d: p[3:]}
 	root := vhBuildTree(g, p[0], p[1], "")
 	before := vhSnapDeep(root, 0)
